@@ -153,6 +153,7 @@ fn replay(path: &str) -> i32 {
                 ("C11", 1) => vharness::checks_hist::c11_case(&mut rng, &mut st),
                 ("C12", 1) => vharness::checks_hist::c12_case(&mut rng, &mut st),
                 ("C12", 2) => vharness::checks_hist::c12_reuse_case(&mut rng, &mut st),
+                ("C12", 3) => vharness::checks_scale::c12_work_sweep_case(&mut rng, &mut st),
                 ("C13", 1) | ("C13", 2) => vharness::checks_conc::c13_case(&mut rng, index, &mut st),
                 ("C14", 1) => {
                     let progress = std::sync::atomic::AtomicU64::new(0);
@@ -162,6 +163,7 @@ fn replay(path: &str) -> i32 {
                 ("C15", 1) => vharness::checks_misc::c15_soup_case(&mut rng, index, &mut st),
                 ("C15", 2) => vharness::checks_misc::c15_planted_case(&mut rng, index, &mut st),
                 ("C15", 3) => vharness::checks_misc::c15_supported_case(&mut rng, index, &mut st),
+                ("C15", 5) => vharness::checks_misc::c15_display_twin_case(&mut rng, index, &mut st),
                 ("C16", 1) => vharness::checks_misc::c16_case(&mut rng, index, &mut st),
                 ("C08", 1) => vharness::checks_class::c08_class_case(&mut rng, index, &mut st),
                 ("C08", 2) => vharness::checks_class::c08_literal_case(&mut rng, index, &mut st),
